@@ -91,7 +91,7 @@ def run(ctx):
     u2 = lambda: U(((None, P("int32")), (None, P("float32"))))
     u3 = lambda: U(((None, P("string")), (None, N("UzRec"))), True)
     for i, order in enumerate([("UzRec", "UzUser", "UzReading", "UzMaybe", "UzP"), ("UzReading", "UzMaybe", "UzRec", "UzUser", "UzP"), ("UzP", "UzMaybe", "UzUser", "UzReading", "UzRec")]):
-        ds = {"UzRec": Rec("UzRec", [("q", P("int32"))]), "UzUser": Rec("UzUser", [("value", u2()), ("other", u3()), ("named", N("UzReading")), ("m", N("UzMaybe"))]),
+        ds = {"UzRec": Rec("UzRec", [("q", P("int32"))]), "UzUser": Rec("UzUser", [("value", u2()), ("other", u3())]),
               "UzReading": Al("UzReading", u2()), "UzMaybe": Al("UzMaybe", u3()),
               "UzP": Proto("UzP", [("a", N("UzUser")), ("b", S(u2())), ("c", N("UzReading")), ("d", S(N("UzMaybe")))])}
         asts.append(("unionzoo%d" % i, Pkg("UnionZoo", [ds[n] for n in order])))
@@ -190,6 +190,8 @@ def run(ctx):
             pydir = os.path.join(root, "out/python")
             pname = [e for e in os.listdir(pydir) if os.path.isdir(os.path.join(pydir, e))][0]
             w = mut.PyWorker(pydir, pname, os.path.join(root, "pyio"))
+            if not w.hello.get("ready"):
+                ctx.count("python-import-failed")
             res = []
             for proto in pkg.protocols()[:2]:
                 vals = values.ValueGen(c, rng("C13w", key, proto.name), quiet_nan_only=True).steps(proto)
